@@ -24,6 +24,33 @@ type solverProc struct {
 	out      *bufio.Reader
 	declared int // number of variables declared so far
 	log      io.Writer
+	defined  map[int]bool // terms sent once as (define-fun t!<id> ...) at the base level
+}
+
+// shareSize: terms with more nodes than this are defined once by name and referred to afterwards.
+const shareSize = 24
+
+// ref returns the text by which the solver knows t: small terms inline, large ones by a name whose definition
+// (built from the names of its large children) is emitted once, outside any push/pop scope.
+func (s *solverProc) ref(t *term) string {
+	if t.sz <= shareSize {
+		return t.String()
+	}
+	name := "t!" + strconv.Itoa(t.id)
+	if s.defined[t.id] {
+		return name
+	}
+	body := t.render(s.ref)
+	if t.w == 0 {
+		fmt.Fprintf(s.in, "(define-fun %s () Bool %s)\n", name, body)
+	} else {
+		fmt.Fprintf(s.in, "(define-fun %s () (_ BitVec %d) %s)\n", name, t.w, body)
+	}
+	if s.defined == nil {
+		s.defined = map[int]bool{}
+	}
+	s.defined[t.id] = true
+	return name
 }
 
 type SolverStats struct {
@@ -115,9 +142,18 @@ func (s *solverProc) readLine() string {
 // also returns values for those variables.
 func (s *solverProc) check(conj []*term, vars []int) (sat int8, vals []varval, errLine string) {
 	s.declareVars()
-	fmt.Fprintln(s.in, "(push 1)")
+	refs := make([]string, 0, len(conj))
+	seen := map[int]bool{}
 	for _, c := range conj {
-		fmt.Fprintf(s.in, "(assert %s)\n", c.String())
+		if seen[c.id] {
+			continue
+		}
+		seen[c.id] = true
+		refs = append(refs, s.ref(c)) // may emit definitions: before the push
+	}
+	fmt.Fprintln(s.in, "(push 1)")
+	for _, r := range refs {
+		fmt.Fprintf(s.in, "(assert %s)\n", r)
 	}
 	fmt.Fprintln(s.in, "(check-sat)")
 	s.in.Flush()
